@@ -271,11 +271,11 @@ def op_payload(op):
     return [w[4], w[5], w[6], w[7]]
 
 
-def describe(nng, payloads=True):
+def describe(nng, payloads=True, ids=None):
     from ethosu.vela import tflite_writer as tw
     from ethosu.vela.nn_graph import PassPlacement
 
-    ids = Ids()
+    ids = ids or Ids()
     sgs = []
     for sg in nng.subgraphs:
         if sg.placement != PassPlacement.Cpu:
